@@ -490,7 +490,13 @@ pub fn parse_hist_case(v: &Value) -> Result<(Pos, Vec<Mv>), String> {
 /// Library board for a reference start position (`None` if the library refuses it; that is
 /// property C07's business and merely counted elsewhere).
 pub fn lib_start(p: &Pos) -> Option<Board> {
-    Board::from_str(&p.fen()).ok()
+    // every way of loading a position, chosen by fingerprint
+    use std::convert::TryFrom;
+    match (crate::engine::fp(p) >> 17) % 4 {
+        0 | 1 => Board::from_str(&p.fen()).ok(),
+        2 => Board::try_from(&bridge::builder_of(p)).ok(),
+        _ => Board::try_from(bridge::builder_of(p)).ok(),
+    }
 }
 
 /// Walk a history: visit the start position and the position after every move.  The moves come
@@ -552,6 +558,15 @@ pub fn walk(
         pos = npos;
         board = nboard;
         moves.push(m);
+        // one position in eight is re-loaded from text or through the builder, so that
+        // positions from the middle of a game are also seen as loaded positions
+        let r = crate::engine::fp(&(entry_sel, moves.len(), "reload"));
+        if r % 8 == 0 {
+            let loaded = if (r >> 8) % 2 == 0 { Board::from_str(&board.to_string()).ok() } else { bridge::board_via_builder(&pos).ok() };
+            if let Some(l) = loaded {
+                board = l;
+            }
+        }
     }
     Ok(moves.len())
 }
